@@ -3,6 +3,7 @@
 package c06
 
 import (
+	"bytes"
 	"fmt"
 	"math/big"
 	"math/rand"
@@ -116,7 +117,7 @@ func runRegistry(r *core.Run, cid string, K int) {
 		}
 		// a TSS-secured counterparty on every chain
 		w.tssOf[n.Name] = w.tss
-		cs := &tsstypes.ClientState{TssAddress: w.tss.Bech32()}
+		cs := &tsstypes.ClientState{TssAddress: w.tss.Bech32(), Pubkey: bytes.Repeat([]byte{0x02}, 33), PartPubkeys: [][]byte{bytes.Repeat([]byte{0x03}, 33), bytes.Repeat([]byte{0x04}, 33)}, Threshold: 2}
 		if err := n.App.XIBCKeeper.ClientKeeper.CreateClient(n.Ctx(), tssChain, cs, &tsstypes.ConsensusState{}); err != nil {
 			r.Inconclusive("%s: cannot create TSS client: %v", cid, err)
 			return
@@ -533,7 +534,7 @@ func (w *worldA) rekeyTSSBy(n *core.Node, mode string) {
 			w.r.Violation(w.cid, "auth/tss/accepted-update-did-not-install-the-account-its-header-names", map[string]interface{}{"chain": n.Name, "header_names": next.Bech32(), "stored": stored, "sent_by": prev.Bech32()})
 		}
 	} else {
-		p, err := clienttypes.NewUpgradeClientProposal("t", "d", tssChain, &tsstypes.ClientState{TssAddress: next.Bech32()}, &tsstypes.ConsensusState{})
+		p, err := clienttypes.NewUpgradeClientProposal("t", "d", tssChain, &tsstypes.ClientState{TssAddress: next.Bech32(), Pubkey: bytes.Repeat([]byte{0x05}, 33), PartPubkeys: [][]byte{bytes.Repeat([]byte{0x06}, 33)}, Threshold: 1}, &tsstypes.ConsensusState{})
 		if err != nil || p.ValidateBasic() != nil {
 			return
 		}
@@ -578,6 +579,17 @@ func (w *worldA) attemptTSS(n *core.Node, signer *core.Account, kind string) {
 		hdr := &tsstypes.Header{TssAddress: w.tssOf[n.Name].Bech32()}
 		if s.Rng.Intn(2) == 0 && !isTSS {
 			hdr.TssAddress = signer.Bech32() // try to take the client over
+		}
+		if s.Rng.Intn(2) == 0 {
+			// the group key and shares the client holds are public (client-state query): a header may repeat them
+			if cs, ok := n.App.XIBCKeeper.ClientKeeper.GetClientState(n.Ctx(), tssChain); ok {
+				if t, ok := cs.(*tsstypes.ClientState); ok {
+					hdr.Pubkey, hdr.PartPubkeys, hdr.Threshold = t.Pubkey, t.PartPubkeys, t.Threshold
+					if s.Rng.Intn(2) == 0 {
+						hdr.PartPubkeys, hdr.Threshold = [][]byte{bytes.Repeat([]byte{0x07}, 33)}, 1
+					}
+				}
+			}
 		}
 		msg, err := clienttypes.NewMsgUpdateClient(tssChain, hdr, signer.Acc)
 		if err != nil {
